@@ -28,6 +28,8 @@ class Unit:
         self.enums = d.get("enums", [])
         self.stats = d["stats"]
         self.functions = d["functions"]
+        if os.environ.get("VERIF_NOISE"):
+            _add_noise(self.functions, d)
         if not os.environ.get("VERIF_NO_ALPHA"):
             _alpha_rename(self.functions)
         self.lambda_by_class = {}
@@ -79,6 +81,31 @@ class Unit:
         if c is None:
             return None
         return self.decls.get(c)
+
+
+def _add_noise(functions, d):
+    """Robustness self-test (VERIF_NOISE=1): put an unrelated local declaration `int const noise{0};` in front of every
+    function body and lambda body, as a harmless edit would. Rules must not depend on a statement being the first one."""
+    int_t = next((i for i, t in enumerate(d["types"]) if t == "const int"), None)
+    if int_t is None:
+        int_t = next((i for i, t in enumerate(d["types"]) if t == "int"), 0)
+    counter = [10 ** 9]
+
+    def noise(loc):
+        counter[0] += 1
+        return {"k": "decl", "loc": loc, "ch": [{"k": "var", "loc": loc, "id": counter[0], "name": "noise", "t": int_t,
+                                                 "init": {"k": "lit", "loc": loc, "t": int_t, "c": "0"}}]}
+
+    def visit(fn):
+        b = fn.get("body")
+        if b is not None and b.get("k") == "compound":
+            b["ch"] = [noise(b.get("loc"))] + list(b.get("ch", []))
+        for n in walk(fn.get("body"), into_lambdas=False):
+            if n.get("k") == "lambda":
+                for op in n.get("ops", []):
+                    visit(op)
+    for fn in functions:
+        visit(fn)
 
 
 LEGENDS = {}   # qualified function name (no template arguments) -> {canonical name: {original spellings}}
